@@ -14,6 +14,10 @@ NOTES = {
     "C07b": "first evaluation missed it; caught after the expiry scenario macro (create, expire, read-modify-write within the expiry window) was added to the C07 generator",
     "C09b": "first evaluation missed it (C09 ran the versioned wait_compact layout only); caught after the policy became a drawn parameter (local_deletion is the production default)",
     "C11a": "caught; the first evaluation was cut short by a terminated check process, not by the check",
+    "C11b": "the first evaluation's 'detected' was a timing artefact (flaky failure), a real miss: the change bites only for an argument that contains one exact phrase. Caught since the mutation generator draws from a dictionary harvested from the tree under test (string literals its non-test code compares text against, plus message tails), placed preferably where a number is expected",
+    "C14c": "first evaluation missed it (the receiving store never had a checkpoint of its own under the same term-index name); caught after that was added to the restore-on-another-store step",
+    "C14d": "first evaluation missed it (the check waited for the end of a backup before writing on); caught after writes between the frozen signal (WaitReady) and the end of the backup were added, as the node's apply loop produces them",
+    "C19c": "first evaluation missed it (snapshot object and its serialisation were back to back); caught after a delivery may come between the two, as the apply loop allows",
     "C15a": "first evaluation missed it; caught after the routing sub-run got a namespace life cycle step (an earlier creation of the same name with another partition count that fails while opening its store)",
     "C16b": "first evaluation missed it; caught after truncation cuts at every field boundary of large messages were added",
     "C19b": "first evaluation missed it (only the receiver was driven); caught by the new sender sub-run: the real logSyncerSM + RemoteLogSender over loopback gRPC in front of the real receiver",
